@@ -53,11 +53,16 @@ structure Item where
   pre  : Option Res
   uerr : Bool
   tres : Option Res := none
+  drop : Bool := false
+  blank : Bool := false
+  extra : List Res := []
 
 def itemOf (j : Json) : R Item := do
   pure { p := ← payload (← field j "p"), res := ← resOf (← field j "res"),
          pre := ← optOf resOf (fieldD j "pre" .null), uerr := ← boolF j "uerr",
-         tres := ← optOf resOf (fieldD j "tres" .null) }
+         tres := ← optOf resOf (fieldD j "tres" .null),
+         drop := ← asBool (fieldD j "drop" (.bool false)), blank := ← asBool (fieldD j "blank" (.bool false)),
+         extra := ← listOf resOf (fieldD j "extra" .null) }
 
 structure Run where
   value   : List Payload
@@ -94,6 +99,8 @@ def askedOf (items : List Item) (j : Json) : R (List Payload × List Res × Bool
   -- a payload the pipeline ran out of time on was answered with its `tres`
   let rs : List Res := its.map (fun (i, it) => if to.contains i then it.tres.getD it.res else it.res)
   let its := its.map (·.2)
+  -- results the pipeline returned in addition (more results than payloads)
+  let rs := rs ++ its.flatMap (·.extra)
   pure (its.map (fun it => it.p), if err then [] else if rev then rs.reverse else rs, err)
 
 /-! ### replay of a queue log -/
@@ -159,6 +166,9 @@ def queueTags (cfg : Cfg) (log : List Ev) (rp : Replay) : List String :=
       let acc := match ev with
         | .enq _ r =>
           let a := if r.interval > 0 then "custom-interval" :: acc else "default-interval" :: acc
+          let a := if r.payload.trigger.blockNumber == 0 then "enq-block-0" :: a else a
+          let a := if r.payload.trigger.blockNumber ≥ 2 ^ 63 then "enq-block>=2^63" :: a else a
+          let a := if r.payload.trigger.blockNumber == 2 ^ 64 - 1 then "enq-block-max" :: a else a
           match lastEnq older r.payload.workID with
           | some (_, r0) =>
             if r.payload.trigger.blockNumber > r0.payload.trigger.blockNumber then "enq-newer-block" :: a
@@ -168,6 +178,8 @@ def queueTags (cfg : Cfg) (log : List Ev) (rp : Replay) : List String :=
         | .deq t n out =>
           let a := if out.isEmpty then "deq-empty" :: acc else "deq-nonempty" :: acc
           let a := if out.length ≥ n then "deq-n-reached" :: a else a
+          let a := if out.any (fun p => p.trigger.blockNumber == 0) then "deq-block-0" :: a else a
+          let a := if out.any (fun p => p.trigger.blockNumber ≥ 2 ^ 63) then "deq-block>=2^63" :: a else a
           let a := if out.any (fun p => match lastEnq older p.workID with
               | some (te, r) => t == te + effInterval cfg r.interval + 1 | none => false) then "boundary+1ns" :: a else a
           -- a work id that is exactly at its interval and was not handed out
@@ -265,13 +277,24 @@ def handlePipe (cfg : Cfg) (input impl : Json) : R Reply := do
   let constOk := qlog.all (fun e => match e.ev with
       | .deq _ n _ => e.src != "tick" || n == Gen.retryBatchSize
       | _ => true) && asked.all (fun a => a.1.length ≤ Gen.workerBatchLimit)
-  let agree := aStaged && aProps && aInel && aRetry && aView && aPView && rp.failedAt.isNone && runnerOk && orderIndep && constOk
+  -- final flows: what the tick getter handed on — the builder's payloads without the empty ones, through the
+  -- coordinator's filter — is what reached the runner (all runs, failed ones included)
+  let built ← listOf (listOf payload) (fieldD impl "built" .null)
+  let isFinal := flow == .recoveryFinal || flow == .conditionalFinal
+  let keep : Payload → Bool := fun p => !(items.any fun it => it.drop && it.p == p)
+  let checked := runs.flatMap (·.value)
+  let aChecked := !isFinal || checked.isPerm (checkedOf keep built)
+  let agree := aStaged && aProps && aInel && aRetry && aView && aPView && rp.failedAt.isNone && runnerOk && orderIndep && constOk && aChecked
   let specRouting (s : Sinks) : Bool :=
     -- per-run attribution of sink contents is not observable; with several runs the predicate is evaluated
     -- on their union (payloads, results, sink contents)
     routingOk flow value results s
-  let si := specRouting got && queueOk cfg log
-  let sm := specRouting want && queueOk cfg (modelPath cfg log)
+  let checkedSpec (c : List Payload) : Bool := !isFinal || checkedOk keep built c
+  -- the number of retries is judged run by run (positions matter when a result's work id is unknown), then summed
+  let runPairs := okRuns.map fun r => (r.value, r.results)
+  let si := specRouting got && retriesCounted flow runPairs got.retries && queueOk cfg log && checkedSpec checked
+  let sm := specRouting want && retriesCounted flow runPairs want.retries && queueOk cfg (modelPath cfg log) &&
+    checkedSpec (checkedOf keep built)
   let diff :=
     if !aStaged then s!"staged: model={want.staged.map showResult} impl={got.staged.map showResult}"
     else if !aProps then s!"proposed: model={want.proposed.map (·.workID.take 6)} impl={got.proposed.map (·.workID.take 6)}"
@@ -282,13 +305,20 @@ def handlePipe (cfg : Cfg) (input impl : Json) : R Reply := do
     else if !runnerOk then "runner returned a result that neither the pipeline nor the cache pre-population produced"
     else if !orderIndep then "model sinks differ between the runner's order and payload order"
     else if !constOk then "retry tick batch size or runner batch limit differs from the regenerated constants"
+    else if !aChecked then s!"checked by the final flow: model={(checkedOf keep built).map (·.workID.take 6)} impl={checked.map (·.workID.take 6)}"
     else match rp.failedAt with
       | some i => s!"no model queue state explains event {i}: {(log[i]?).map showEv}"
       | none => ""
   let fail :=
     if !specRouting got then explainRouting flow value results got
+    else if !retriesCounted flow runPairs got.retries then
+      "the number of retries differs from the retryable failures that have a payload (by work id, or by position when no payload carries the work id)"
     else if !queueOk cfg log then explainQueue cfg log
+    else if !checkedSpec checked then explainChecked keep built checked
     else ""
+  -- a retryable failure no payload carries, at a position past the payload list
+  let beyond := okRuns.any fun r => r.results.zipIdx.any fun (x, i) =>
+    x.retryableFail && (matchPayload r.value x.cr).isNone && r.value.length ≤ i
   -- coverage tags
   let permuted := okRuns.any fun r =>
     (r.results.map (·.cr.workID)) != ((r.value.filter fun p => r.results.any (·.cr.workID == p.workID)).map (·.workID))
@@ -311,9 +341,21 @@ def handlePipe (cfg : Cfg) (input impl : Json) : R Reply := do
     (if !okRuns.all (fun r => contractOk r.value r.results) then ["contract-violated", "positional-fallback"] else []) ++
     (if uerrIds.any (fun k => inelig.any (·.workID == k)) then ["updater-error"] else []) ++
     (if okRuns.any (fun r => r.value.length < items.length) then ["pre-filtered"] else []) ++
+    (if okRuns.any (fun r => r.results.length > r.value.length) then ["more-results-than-payloads"] else []) ++
+    (if beyond then ["fallback-beyond-payloads"] else []) ++
+    (if (fieldD input "nilIdle" (.bool false)) == .bool true then ["nil-idle-sources"] else []) ++
+    (if (fieldD impl "deqErrs" (.num 0)) != .num 0 then ["tick-dequeue-error"] else []) ++
+    (if built.any (fun b => b.any payloadEmpty) then ["builder-empty-payload"] else []) ++
+    (if (fieldD impl "bldErrs" (.num 0)) != .num 0 then ["tick-builder-error"] else []) ++
     (if results.any (fun r => r.retryableFail && r.retryInterval > 0) then ["custom-interval"] else []) ++
     (if log.any (fun e => match e with | .deq _ _ out => !out.isEmpty | _ => false) then ["retry-handed-out"] else []) ++
-    (queueTags cfg log rp).filter (fun t => t == "boundary+1ns" || t == "boundary-exact" || t == "purge-ambiguous" || t == "deq-n-reached")
+    (if want.staged.any (fun r => r.trigger.blockNumber == 0) then ["staged-block-0"] else []) ++
+    (if want.proposed.any (fun r => r.trigger.blockNumber == 0) then ["proposed-block-0"] else []) ++
+    (if want.ineligible.any (fun r => r.trigger.blockNumber == 0) then ["ineligible-block-0"] else []) ++
+    (if want.retries.any (fun r => r.payload.trigger.blockNumber == 0) then ["retry-block-0"] else []) ++
+    (if value.any (fun p => p.trigger.blockNumber ≥ 2 ^ 63) then ["block>=2^63"] else []) ++
+    (queueTags cfg log rp).filter (fun t => t == "boundary+1ns" || t == "boundary-exact" || t == "purge-ambiguous" || t == "deq-n-reached" ||
+      t == "deq-block-0" || t == "deq-block>=2^63" || t == "enq-older-block" || t == "enq-same-block" || t == "enq-newer-block")
   pure { agree := agree, specModel := sm, specImpl := si, diff := diff, fail := fail,
          nontrivial := results.length ≥ 2, tags := tags }
 
@@ -373,6 +415,9 @@ def handlePlugin (cfg : Cfg) (input impl : Json) : R Reply := do
     (if items.any (fun it => it.script.any fun r => r.retryableFail && r.retryInterval ≤ 0) then ["plugin-default-interval"] else []) ++
     (if per.any (fun (it, cs) => (it.script.zip (cs.zip cs.tail)).any fun (r, c, c') => c'.t == c.t + effInterval cfg r.retryInterval + tick) then ["plugin-tick-boundary"] else []) ++
     (if !wantPerf.isEmpty then ["plugin-staged"] else []) ++
+    (if items.any (fun it => it.script.length > 1 && it.p.trigger.blockNumber == 0) then ["plugin-retry:block-0"] else []) ++
+    (if items.any (fun it => it.script.length > 1 && it.p.trigger.blockNumber ≥ 2 ^ 63) then ["plugin-retry:block>=2^63"] else []) ++
+    (if wantPerf.any (fun r => r.trigger.blockNumber == 0) then ["plugin-staged:block-0"] else []) ++
     (if (fieldD o "peerReject" (.str "")) != .str "" then ["plugin:final-observation-rejected-by-peers"] else []) ++
     (if (fieldD input "decoy" (.bool false)) == .bool true then ["plugin-decoy"] else [])
   pure { agree := agree, specModel := sm, specImpl := si, diff := diff, fail := fail,
@@ -405,6 +450,10 @@ def handleStress (cfg : Cfg) (input impl : Json) : R Reply := do
   let g ← natF si_ "g"
   let per ← natF si_ "per"
   let n1 ← natF si_ "n1"
+  -- the check block the work ids are queued at and the newer one (absent or new = 0: blocks 1 and 2)
+  let newIn ← asNat (fieldD si_ "new" (.num 0))
+  let oldIn ← asNat (fieldD si_ "old" (.num 0))
+  let (bOld, bNew) := if newIn == 0 then (1, 2) else (oldIn, newIn)
   let o ← field impl "stress"
   let t0 ← natF o "t0"
   let t1 ← natF o "t1"
@@ -432,10 +481,10 @@ def handleStress (cfg : Cfg) (input impl : Json) : R Reply := do
   let realTime := after.all (fun x => x.2.1 > inv1)
   let pl := fun (l : List (Nat × Nat)) => l.map fun (i, b) => stressPayload i b
   let log : List Ev :=
-    (List.range w).map (fun i => Ev.enq t0 { payload := stressPayload i 1, interval := 1 }) ++
-    before.map (fun x => Ev.enq t1 { payload := stressPayload x.2.2 2, interval := 1 }) ++
+    (List.range w).map (fun i => Ev.enq t0 { payload := stressPayload i bOld, interval := 1 }) ++
+    before.map (fun x => Ev.enq t1 { payload := stressPayload x.2.2 bNew, interval := 1 }) ++
     [Ev.deq t1 n1 (pl d1)] ++
-    after.map (fun x => Ev.enq t1 { payload := stressPayload x.2.2 2, interval := 1 }) ++
+    after.map (fun x => Ev.enq t1 { payload := stressPayload x.2.2 bNew, interval := 1 }) ++
     [Ev.deq t2 (w + 10) (pl d2)]
   let outs := modelOuts cfg log
   let agree := complete && bad == 0 && realTime && outs == [pl d1, pl d2]
@@ -446,15 +495,16 @@ def handleStress (cfg : Cfg) (input impl : Json) : R Reply := do
       | .deq t n _, o :: os => (st.1 ++ [Ev.deq t n o], os)
       | e, os => (st.1 ++ [e], os)) (([], outs) : List Ev × List (List Payload))).1
   let sm := if mlog == log then qok else queueOk cfg mlog
-  let lost := ops.filter fun x => !(d2.contains (x.2.2, 2)) && !(d1.contains (x.2.2, 2))
+  let lost := ops.filter fun x => !(d2.contains (x.2.2, bNew)) && !(d1.contains (x.2.2, bNew))
   let fail :=
     if si then "" else
-    if !complete || bad != 0 then "stress bookkeeping incomplete"
+    if bad != 0 then "dequeued a payload that was never enqueued [concurrent Enqueue/Dequeue]"
+    else if !complete then "stress bookkeeping incomplete"
     else if !realTime then "not linearizable: a Dequeue handed out the old check block of a work id whose newer block had already been enqueued"
     else s!"{explainQueue cfg log} [concurrent Enqueue/Dequeue, linearized]"
   let diff := if agree then "" else
     s!"lost newer blocks: {lost.length} e.g. {(lost.take 3).map (·.2.2)}; model D1={(outs.head?.map (·.length))} impl D1={d1.length}; model D2={((outs.drop 1).head?.map (·.length))} impl D2={d2.length}"
-  let tags := ["stress"] ++
+  let tags := ["stress"] ++ (if bOld == 0 then ["stress:block-0"] else []) ++
     (if !before.isEmpty && !after.isEmpty then ["stress:dequeue-amid-enqueues"] else []) ++
     (if ops.any (fun x => x.1 < ret1 && x.2.1 > inv1) then ["stress:overlapping-calls"] else []) ++
     (if d1.length ≥ n1 then ["stress:n-reached"] else [])
